@@ -267,6 +267,7 @@ static void cyc_phi(mpz_t phi, int N) {
 		default: mpz_pow_ui(phi, RX_P, 18); mpz_pow_ui(t, RX_P, 9); mpz_sub(phi, phi, t); mpz_add_ui(phi, phi, 1); break; }
 	mpz_clear(t);
 }
+static void (*cyc_exp_dig_hook)(const tdesc *D, const relt *g) = NULL; /* set below: fpN_exp_dig on a cyclotomic element (its NAF path) */
 static void do_cycx(vf_case *c) {
 	tdesc *D = &TW[mpz_get_si(c->v[1])]; const rtower *T = &D->rt; int th, N = D->N; const cycdesc *Y = NULL; for (unsigned i = 0; i < sizeof CYC / sizeof *CYC; i++) if (CYC[i].N == N) Y = &CYC[i]; if (!Y) return;
 	relt a, g, t, r, one, q; relt_init(&a); relt_init(&g); relt_init(&t); relt_init(&r); relt_init(&one); relt_init(&q); unpack(&a, T, c->v[2]); relt_one(T, &one); mpz_t phi, e; mpz_inits(phi, e, NULL); cyc_phi(phi, N);
@@ -299,6 +300,7 @@ static void do_cycx(vf_case *c) {
 			if (0 && Y->sim && i % 3 == 1) { /* not judged here: fpN_exp_cyc_sim decomposes its exponents with the Frobenius of the SELECTED PAIRING CURVE (group order, family parameter), i.e. it is defined on GT only; C12 / the family harness judge it there through gt_exp_sim */ /* g^e * (g^2)^3 */ bn_t b3; bn_new(b3); bn_set_dig(b3, 3); relt gg; relt_init(&gg); relt_mul(T, &gg, &g, &g); put(EA, T, &g); put(EB_, T, &gg); junk(EC, N); VF_TRY(th, Y->sim(EC, EA, be, EB_, b3)); transitions++;
 				relt_mul(T, &q, &gg, &gg); relt_mul(T, &q, &q, &gg); snprintf(w, sizeof w, "fp%d_exp_cyc_sim(g, %s, g^2, 3)", N, es[i]);
 				if (th) vf_fail(NULL, "%s raised", w); else if (!neg) { relt_mul(T, &q, &q, &r); expect(D, w, EC, &q, NULL); } else { relt x; relt_init(&x); get(&x, T, EC); relt_mul(T, &x, &x, &r); if (!relt_eq(T, &x, &q)) vf_fail(NULL, "%s: differs from g^e * g^6", w); relt_clear(&x); } relt_clear(&gg); } } }
+	if (cyc_exp_dig_hook) cyc_exp_dig_hook(D, &g);
 	/* sparse exponents: sum of signed powers of two, optional overall sign */
 	if (Y->sps) { static const int S1[] = {0, 3, -5}, S2[] = {2, 7}, S3[] = {0}, S4[] = {1, -4, 9, 12}; const int *SS[] = {S1, S2, S3, S4}; const int SL[] = {3, 2, 1, 4};
 		for (int i = 0; i < 4; i++) for (int sg = 0; sg < 2; sg++) { mpz_set_ui(e, 0); mpz_t u; mpz_init(u); for (int j = 0; j < SL[i]; j++) { mpz_set_ui(u, 1); mpz_mul_2exp(u, u, (unsigned long)abs(SS[i][j])); if (SS[i][j] < 0) mpz_sub(e, e, u); else mpz_add(e, e, u); } if (sg) mpz_neg(e, e); mpz_clear(u);
@@ -349,7 +351,14 @@ static const struct { int N; dg_fn add, sub, mul, exp; cd_fn cmp; sd_fn set; } D
 	{4, w_fp4_add_dig, w_fp4_sub_dig, w_fp4_mul_dig, NULL, w_fp4_cmp_dig, w_fp4_set_dig}, {6, NULL, NULL, NULL, NULL, w_fp6_cmp_dig, w_fp6_set_dig}, {8, NULL, NULL, w_fp8_mul_dig, w_fp8_exp_dig, w_fp8_cmp_dig, w_fp8_set_dig},
 	{9, NULL, NULL, NULL, NULL, w_fp9_cmp_dig, w_fp9_set_dig}, {12, NULL, NULL, NULL, w_fp12_exp_dig, w_fp12_cmp_dig, w_fp12_set_dig}, {16, NULL, NULL, NULL, w_fp16_exp_dig, w_fp16_cmp_dig, w_fp16_set_dig},
 	{18, NULL, NULL, NULL, w_fp18_exp_dig, w_fp18_cmp_dig, w_fp18_set_dig}, {24, NULL, NULL, NULL, w_fp24_exp_dig, w_fp24_cmp_dig, w_fp24_set_dig}, {48, NULL, NULL, NULL, w_fp48_exp_dig, w_fp48_cmp_dig, w_fp48_set_dig}, {54, NULL, NULL, NULL, w_fp54_exp_dig, w_fp54_cmp_dig, w_fp54_set_dig}};
+static void cyc_exp_dig(const tdesc *D, const relt *g) {
+	const rtower *T = &D->rt; int th, N = D->N, di = -1; for (unsigned i = 0; i < sizeof DG / sizeof *DG; i++) if (DG[i].N == N) di = (int)i; if (di < 0 || !DG[di].exp) return;
+	static const unsigned long DS[] = {1, 2, 3, 6, 7, 11, 13, 31, 43, 255}; relt r; relt_init(&r); mpz_t z; mpz_init(z); char w[64];
+	for (int q = 0; q < 10; q++) { mpz_set_ui(z, DS[q]); relt_pow(T, &r, g, z); put(EA, T, g); junk(EC, N); VF_TRY(th, DG[di].exp(EC, EA, (dig_t)DS[q])); snprintf(w, sizeof w, "fp%d_exp_dig(cyclotomic element, %lu)", N, DS[q]); if (th) vf_fail(NULL, "%s raised", w); else expect(D, w, EC, &r, NULL); }
+	relt_clear(&r); mpz_clear(z);
+}
 static void do_dig(vf_case *c) {
+	cyc_exp_dig_hook = cyc_exp_dig;
 	tdesc *D = &TW[mpz_get_si(c->v[1])]; const rtower *T = &D->rt; int th, N = D->N, di = -1; for (unsigned i = 0; i < sizeof DG / sizeof *DG; i++) if (DG[i].N == N) di = (int)i; if (di < 0) return;
 	relt a, r, dd; relt_init(&a); relt_init(&r); relt_init(&dd); unpack(&a, T, c->v[2]); dig_t d = (dig_t)mpz_get_ui(c->v[3]); mpz_t z; mpz_init(z); mpz_set_ui(z, (unsigned long)d);
 	relt_zero(T, &dd); mpz_mod(dd.c[0], z, RX_P); char w[64];
@@ -368,6 +377,7 @@ static void do_dig(vf_case *c) {
 }
 
 static void run_case(vf_case *c) {
+	cyc_exp_dig_hook = cyc_exp_dig;
 	if (!select_prime(c->v[0])) { vf_fail(NULL, "prime refused"); return; }
 	long tid = mpz_get_si(c->v[1]); if (tid < 1 || tid >= NTW) { vf_fail(NULL, "bad tower"); return; }
 	if (!TW[tid].usable) return;
